@@ -41,6 +41,25 @@ def _template(PcfgGrammar):
                 sink = io.StringIO()
                 with contextlib.redirect_stdout(sink), contextlib.redirect_stderr(sink):
                     tmpl = PcfgGrammar('t', d, '4.7', None)
+                # format probe: a second small ruleset through the real loader, compared with what mem_grammar builds for the same content.  The
+                # in-memory rulesets of C01 / C02 / C04 / C08 / C16 are only inputs the code can meet as long as the two agree
+                probe = {'A': {2: [('ab', .5), ('cd', .5), ('ef', .25)]}, 'C': {2: [('LL', .75), ('UL', .25)]}, 'D': {1: [('1', .5), ('2', .25)]},
+                         'grammar': [('A2D1', .75), ('D1', .25)], 'prince': [('D1', 1.0)]}
+                d2 = tempfile.mkdtemp(prefix='pcfgmc-tmpl-', dir='/dev/shm' if os.path.isdir('/dev/shm') else None)
+                try:
+                    write_ruleset(d2, probe)
+                    with contextlib.redirect_stdout(sink), contextlib.redirect_stderr(sink):
+                        real = PcfgGrammar('t', d2, '4.7', None, skip_brute=True)
+                finally:
+                    shutil.rmtree(d2, ignore_errors=True)
+                types, base = ref_loaded(probe, True, False)
+                want_g = {t: [{'values': list(v), 'prob': p} for p, v in groups] for t, groups in types.items()}
+                want_b = [{'prob': p, 'replacements': list(r)} for p, r in base]
+                got_g = {t: real.grammar.get(t) for t in want_g if want_g[t]}
+                if got_g != {t: v for t, v in want_g.items() if v} or real.base != want_b:
+                    _TEMPLATES[PcfgGrammar] = RuntimeError('harness: the format of a loaded grammar changed (loader gives grammar %r / base %r; the in-memory rulesets are built as %r / %r)'
+                                                           % ({k: got_g[k] for k in list(got_g)[:2]}, real.base[:2], {k: want_g[k] for k in list(want_g)[:2]}, want_b[:2]))
+                    return _TEMPLATES[PcfgGrammar]
             finally:
                 shutil.rmtree(d, ignore_errors=True)
         except Exception:
@@ -52,6 +71,8 @@ def _template(PcfgGrammar):
 def mem_grammar(PcfgGrammar, types, base):
     """types: {name: [prob, ...] or [(prob, [values])...]}; base: [(prob, [names...]), ...]"""
     tmpl = _template(PcfgGrammar)
+    if isinstance(tmpl, RuntimeError):
+        raise tmpl
     if tmpl is not None:
         import copy
         g = copy.deepcopy(tmpl)
